@@ -132,7 +132,7 @@ func (e *C04) InitWorker(c *core.Ctx) {
 }
 
 func hashImage(r *core.Rng) (image.Image, string) {
-	sizes := [][2]int{{64, 64}, {64, 64}, {256, 256}, {32, 32}, {64, 10}, {128, 128}, {10, 64}, {65, 65}, {0, 0}, {256, 255}, {8, 8}}
+	sizes := [][2]int{{64, 64}, {64, 64}, {256, 256}, {32, 32}, {64, 10}, {128, 128}, {10, 64}, {65, 65}, {0, 0}, {256, 255}, {8, 8}, {128, 32}, {32, 128}, {512, 128}, {16, 256}, {4096, 1}, {64, 32}, {256, 64}}
 	sz := sizes[r.Intn(len(sizes))]
 	sp := gen.ImgSpec{Kind: gen.ImgKinds[r.Intn(len(gen.ImgKinds))], W: sz[0], H: sz[1], Content: gen.ImgContents[r.Intn(len(gen.ImgContents))]}
 	return gen.MakeImage(r, sp), fmt.Sprintf("image %s %dx%d", sp, sz[0], sz[1])
